@@ -121,11 +121,11 @@ impl Property for C05 {
     }
     fn enumerate(&self, quick: bool) -> Box<dyn Iterator<Item = Case> + Send + '_> {
         if quick {
-            Box::new([FamId::K256, FamId::CombinedEd, FamId::Var].into_iter().flat_map(|f| history::exhaustive(f, 2)).chain(history::depth1_rest(&[FamId::K256, FamId::CombinedEd, FamId::Var])).chain(history::long_repeats(true)).chain(history::many_pairs(true)).map(Case::Hist).chain(crate::props::c02::C02.enumerate(true)))
+            Box::new([FamId::K256, FamId::CombinedEd, FamId::Var].into_iter().flat_map(|f| history::exhaustive(f, 2)).chain(history::depth1_rest(&[FamId::K256, FamId::CombinedEd, FamId::Var])).chain(history::long_repeats(true)).chain(history::many_pairs(true)).chain(crate::props::c09::builder_sweep()).map(Case::Hist).chain(crate::props::c02::C02.enumerate(true)))
         } else {
             let d3 = [FamId::K256].into_iter().flat_map(|f| history::exhaustive(f, 3));
             let d2 = ALL_FAMS.into_iter().filter(|f| *f != FamId::K256).flat_map(|f| history::exhaustive(f, 2));
-            Box::new(d3.chain(d2).chain(history::long_repeats(false)).chain(history::many_pairs(false)).map(Case::Hist).chain(crate::props::c02::C02.enumerate(false)))
+            Box::new(d3.chain(d2).chain(history::long_repeats(false)).chain(history::many_pairs(false)).chain(crate::props::c09::builder_sweep()).map(Case::Hist).chain(crate::props::c02::C02.enumerate(false)))
         }
     }
     fn fuzz_plans(&self) -> Vec<(&'static str, u64)> {
